@@ -18,7 +18,7 @@ func Run(ctx *common.Ctx) int {
 	// shapes: twoA = 2a, a an integer or half-integer in [0.5, 5000]
 	shapeSet := map[int]bool{}
 	if quick {
-		for t := 1; t <= 256; t++ {
+		for t := 1; t <= 600; t++ {
 			shapeSet[t] = true
 		}
 		// shapes the tests produce: 2^m-1 over 2, 2^(m-2), 2^(m-3), 2^(m-1), k-1, K/2, N/2 ...
@@ -28,6 +28,9 @@ func Run(ctx *common.Ctx) int {
 		for t := 128.0; t <= 10000; t *= 1.17 {
 			shapeSet[int(t)] = true
 			shapeSet[int(t)|1] = true
+		}
+		for t := 600; t <= 10000; t += 37 {
+			shapeSet[t] = true
 		}
 	} else {
 		for t := 1; t <= 10000; t++ {
@@ -122,7 +125,7 @@ func Run(ctx *common.Ctx) int {
 		"evaluations":         evals,
 		"distinct_nontrivial": len(shapes),
 		"rule": "a finite lattice, completely: the listed shapes a (integers and half-integers; thorough: all 10000 in [0.5,5000]) x for each a the arguments {0,-0,-1,-inf,5e-324,1e-300,1e-10}, the three floats around 1 and around a, a*r for 24 ratios in 0.01..20, a+d*sqrt(a) for d=-12..40 step 1/2, 20a+200, and the underflow cut-off region 700..746; " +
-			"oracle: 320-bit closed forms of Q(a,x) for integer/half-integer a; checks: |Igamc-Q| <= 1e-12+1e-14a, value in [0,1], exactly 1 for x<=0, non-increasing along the lattice up to the allowance; distinct = number of shapes",
+			"oracle: 192-bit closed forms of Q(a,x) for integer/half-integer a; checks: |Igamc-Q| <= 1e-12+1e-14a, value in [0,1], exactly 1 for x<=0, non-increasing along the lattice up to the allowance; distinct = number of shapes",
 		"samples":                     samples,
 		"shapes":                      len(shapes),
 		"worst_fraction_of_allowance": worstFrac,
